@@ -1667,9 +1667,12 @@ func (bc *Blockchain) removeOldHeaderHashes(index uint32) time.Duration {
 			Prefix: []byte{byte(storage.IXHeaderHashList)},
 		}, func(k, _ []byte) (bool, bool) {
 			first := binary.BigEndian.Uint32(k[1:])
-			if first <= uint32(till) {
+			// The batch right below the one with the index is kept: it's the
+			// previous batch of the header hashes (see HeaderHashes.init) while
+			// the header height is in the batch of the index.
+			if first < uint32(till) {
 				removed += headerBatchCount
-				return false, first != uint32(till)
+				return false, true
 			}
 			return true, false
 		})
